@@ -101,8 +101,10 @@ long sim_ledger_live_bytes(void)
 {
     return ledger_bytes;
 }
+void sim_quarantine_check(void);
 void sim_ledger_check_empty(const char *when)
 {
+    sim_quarantine_check();
     if (ledger_live == 0)
         return;
     char buf[600];
@@ -175,6 +177,46 @@ int sim_alloc_count(void)
     return G.T[G.cur].cnt;
 }
 
+/* ---- quarantine: a freed block is not handed back to the allocator at once; it stays poisoned
+ * until QUAR_N later frees have happened (and until the end of the run for the last ones), and
+ * the poison is verified when it leaves: a store into memory the runtime has already freed
+ * (for instance by a thread still finishing inside an object that another thread was allowed to
+ * free) changes it and is reported, instead of silently landing in whatever reuses the block. */
+#define QUAR_N 128
+static struct {
+    void *p;
+    size_t np, sz;
+} quar[QUAR_N];
+static unsigned quar_pos;
+static void quarantine_verify(unsigned i)
+{
+    const unsigned char *b = (const unsigned char *)quar[i].p;
+    for (size_t k = 0; k < quar[i].np; k++)
+        if (b[k] != 0xdd)
+            sim_fail("M-ledger:write-after-free", "a block of %zu bytes that the runtime had freed was written to afterwards (offset %zu holds %#x)", quar[i].sz, k, b[k]);
+}
+static void quarantine_put(void *p, size_t np, size_t sz)
+{
+    if (sz > 65536) {
+        free(p);
+        return;
+    }
+    unsigned i = quar_pos++ % QUAR_N;
+    if (quar[i].p) {
+        quarantine_verify(i);
+        free(quar[i].p);
+    }
+    quar[i].p = p;
+    quar[i].np = np;
+    quar[i].sz = sz;
+}
+void sim_quarantine_check(void)
+{
+    for (unsigned i = 0; i < QUAR_N; i++)
+        if (quar[i].p)
+            quarantine_verify(i);
+}
+
 void *abtv_malloc(size_t sz)
 {
     if (alloc_should_fail(SIM_RES_MALLOC)) {
@@ -208,9 +250,11 @@ void abtv_free(void *p)
     if (h < 0 || ledger[h].kind != LK_MALLOC)
         sim_fail("M-ledger:bad-free", "free(%p): not a live block obtained by the runtime (double free or interior pointer)", p);
     /* poison so that use-after-free becomes visible */
-    memset(p, 0xdd, ledger[h].sz <= 16384 ? ledger[h].sz : 256); /* large blocks: do not fault in untouched pages */
+    size_t np = ledger[h].sz <= 16384 ? ledger[h].sz : 256; /* large blocks: do not fault in untouched pages */
+    size_t sz = ledger[h].sz;
+    memset(p, 0xdd, np);
     ledger_del(h);
-    free(p);
+    quarantine_put(p, np, sz);
 }
 void *abtv_realloc(void *p, size_t sz)
 {
